@@ -1,4 +1,5 @@
 # C12 - Scheduler: never early, in deadline order, cancel hits exactly its target   (src/cocls/scheduler.h)
+import os
 TPT = 'std::chrono::time_point<std::chrono::_V2::system_clock, std::chrono::duration<long, std::ratio<1L, 1000000000L> > >'
 TYPES = {'SCHED': 'cocls::scheduler', 'ITEM': 'cocls::scheduler::SchItem', 'PROM': 'cocls::promise<void>',
          'VECT': 'std::vector<cocls::scheduler::SchItem, std::allocator<cocls::scheduler::SchItem> >'}
@@ -30,11 +31,17 @@ RX = dict(
     pr_call_exc=r'^cocls::suspend_point<bool> cocls::promise<void>::operator\(\)<std::__exception_ptr::exception_ptr&>\(std::__exception_ptr::exception_ptr&\)$',
     pr_ctor_future=r'^cocls::promise<void>::promise\(cocls::future<void>&\)$',
     sp_dtor=r'^cocls::suspend_point<void>::~suspend_point\(\)$',
+    # worker side (thread / thread-pool / start(awaitable) mode): the lowered coroutine worker_coro<have_pool> and its two lambdas
+    wk_resume=r'^cocls::async<void> cocls::scheduler::worker_coro<false>\(std::stop_token\) \[clone \.resume\]$',
+    wk_resume_pool=r'^cocls::async<void> cocls::scheduler::worker_coro<true>\(std::stop_token\) \[clone \.resume\]$',
+    wk_stop_cb=r'^cocls::scheduler::worker_coro<false>\(std::stop_token\)::\{lambda\(\)#1\}::operator\(\)\(\) const$',
+    wk_stop_cb_pool=r'^cocls::scheduler::worker_coro<true>\(std::stop_token\)::\{lambda\(\)#1\}::operator\(\)\(\) const$',
 )
 BOUNDARY = [r'^std::vector<cocls::scheduler::SchItem', r'^void std::push_heap<', r'^void std::pop_heap<', RX['find_if'], r'^cocls::promise<void>::',
             r'cocls::promise<void>::operator\(\)<', r'^std::condition_variable::', RX['sp_dtor']]
 LIBS = ['rt_core.c', 'rt_atomic_seq.c', 'model_mutex.c']     # lib/model_vec_heap.c and lib/model_promise.c are included by the spec (they need its macros)
 SPEC = ['C12/sch_spec.h', 'C12/h_sch.c']
+SPEC_WK = ['C12/sch_spec.h', 'C12/wk_spec.h', 'C12/h_wk.c']      # worker-side units (worker_coro, its lambdas, start<Awt>)
 HEAP = dict(sch_compare_item=RX['compare_item'], sch_item_dtor=RX['item_dtor'])
 DRIVE_SCRIPTS = ['SSCGC', 'SSSCC', 'SSGGG', 'SCCGS', 'SGSCG', 'SSCCG']   # incl. cancel of a non-top entry + expiry + repeated cancel, duplicate ids, equal deadlines
 DRIVE_REPLAY = {'SSCGC': dict(replay=dict(src='c12_remove_empty.cpp', mode='remove_empty')), 'SSSCC': dict(replay=dict(src='c12_cancel_dup.cpp', mode='cancel_dup'))}
@@ -52,6 +59,37 @@ def unit(name, alias, roots, names=None, types=None, boundary=(), defines=(), **
              harness='h_' + name, enforce=alias, defines=['CV_HAS_%s_U 1' % alias] + list(defines), under_contract=[UC.get(name, name)])
     d.update(kw)
     return d
+
+def worker_unit(name, hp, **kw):
+    # the lowered coroutine worker_coro<hp>: its ramp function (creates the frame) and ONE resumption of its body (the [clone .resume] function clang
+    # splits off), from its start and from its suspension point inside the loop
+    kw.setdefault('harness', 'h_worker_step')
+    W = r'cocls::scheduler::worker_coro<%s>\(std::stop_token\)' % hp
+    names = dict(wk_resume=r'^cocls::async<void> %s \[clone \.resume\]$' % W, wk_ramp=r'^cocls::async<void> %s$' % W, wk_stop_cb=r'^%s::\{lambda\(\)#1\}::operator\(\)\(\) const$' % W,
+                 wk_visit_time=r'^auto %s::\{lambda\(auto:1&\)#1\}::operator\(\)<std::chrono::time_point<' % W,
+                 wk_visit_promise=r'^auto %s::\{lambda\(auto:1&\)#1\}::operator\(\)<cocls::promise<void> >' % W)
+    names_opt = dict(wk_stopcb_ctor=r'^std::stop_callback<%s::\{lambda\(\)#1\}>::stop_callback<' % W, wk_stopcb_dtor=r'^std::stop_callback<%s::\{lambda\(\)#1\}>::~stop_callback\(\)$' % W,
+                     wk_stop_requested=r'^std::stop_token::stop_requested\(\) const$', wk_stoptok_dtor=r'^std::stop_token::~stop_token\(\)$', wk_stoptok_move=r'^std::stop_token::stop_token\(std::stop_token&&\)$',
+                     wk_now=r'^std::chrono::_V2::system_clock::now\(\)$',
+                     wk_get_expired_lk=RX['get_expired_lk'], wk_visit=r'std::visit<%s::\{lambda\(auto:1&\)#1\}, std::variant<' % W,
+                     wk_var_dtor=r'^std::variant<std::chrono::time_point<.*>, cocls::promise<void> >::~variant\(\)$', wk_pr_call=r'^cocls::suspend_point<bool> cocls::promise<void>::operator\(\)<>\(\)$',
+                     wk_spb_dtor=r'^cocls::suspend_point<bool>::~suspend_point\(\)$', wk_can_block=r'^cocls::coro_queue::can_block\(\)$',
+                     wk_wait_until=r'std::condition_variable::wait_until<std::chrono::duration<long, std::ratio<1l, 1000000000l> > >\(', wk_pause_suspend=r'^cocls::pause::await_suspend\(',
+                     wk_return_void=r'^cocls::coro_unified_return<void, cocls::async_promise<void> >::return_void\(\)$', wk_final_suspend=r'^cocls::async_promise<void>::final_suspend\(\)$',
+                     wk_final_await_suspend=r'cocls::async_promise<void>::final_awaiter::await_suspend<', wk_unhandled=r'^cocls::async_promise<void>::unhandled_exception\(\)$',
+                     wk_ap_ctor=r'^cocls::async_promise<void>::async_promise\(\)$', wk_get_return_object=r'^cocls::async_promise<void>::get_return_object\(\)$',
+                     wk_initial_suspend=r'^cocls::async_promise<void>::initial_suspend\(\)$', wk_async_dtor=r'^cocls::async<void>::~async\(\)$',
+                     # thread-pool mode only
+                     wk_opt_has_value=r'^std::optional<cocls::scheduler::GlobState>::has_value\(\) const$', wk_opt_arrow=r'^std::optional<cocls::scheduler::GlobState>::operator->\(\)$',
+                     wk_pool_suspend=r'^cocls::thread_pool::co_awaiter::await_suspend\(', wk_pool_await_resume=r'^cocls::thread_pool::co_awaiter::await_resume\(\)$',
+                     wk_pool_resume=r'^bool cocls::thread_pool::resume<bool>\(cocls::suspend_point<bool>&&\)$', wk_pool_any_enqueued=r'^cocls::thread_pool::any_enqueued\(\)$')
+    bnd = [r'^std::stop_callback<', r'^std::stop_token::', r'^std::chrono::_V2::system_clock::now', RX['get_expired_lk'], r'std::visit<', r'^std::variant<.*::~variant', r'^cocls::suspend_point<',
+           r'^cocls::pause::', r'^cocls::coro_queue::', r'std::condition_variable::wait_until<', r'^cocls::coro_unified_return<', r'^cocls::async_promise<void>::', r'cocls::async_promise<void>::final_awaiter::',
+           r'^cocls::async<void>::', r'^std::optional<cocls::scheduler::GlobState>::', r'^cocls::thread_pool::co_awaiter::await_(suspend|resume)\(', r'cocls::thread_pool::resume<', r'^cocls::thread_pool::any_enqueued']
+    return unit(name, 'wk_resume', [names['wk_resume'], names['wk_ramp'], names['wk_stop_cb'], names['wk_visit_time'], names['wk_visit_promise']], names=names, names_opt=names_opt, boundary=bnd,
+                types=dict(T_SPB, STOPTOK='std::stop_token', ULOCK='std::unique_lock<std::mutex>', WKASYNC='cocls::async<void>', WKGLOBST='cocls::scheduler::GlobState', WKPOOL='cocls::thread_pool', **T_EXPIRED),
+                ptypes=dict(WKFRAME=names['wk_resume'] + '#0', WKVIS=names['wk_visit_time'] + '#0', WKCB=names['wk_stop_cb'] + '#0', WKSCB=names_opt['wk_stopcb_dtor'] + '#0'),
+                spec=SPEC_WK, enforce=None, under_contract=['cocls::scheduler::worker_coro<%s>(std::stop_token)  [ramp + every resumption of the lowered coroutine body]' % hp], **kw)
 
 UNITS = [
     unit('compare_item', 'sch_compare_item', [RX['compare_item']]),
@@ -79,6 +117,36 @@ UNITS = [
          names_opt={'pr_call_exc': RX['pr_call_exc'], 'sp_dtor': RX['sp_dtor']}, types=dict(T_SPB), enforce=None, loop_contracts=True, object_bits=10,
          defines=['C12_EXC_PRIMS 1', 'CV_HAS_sch_interval_cb_U 1'], harness='h_interval_stop_cb',
          replay=dict(src='c12_interval_replay.cpp', mode='interval_stop', timeout=60)),
+    # ---- worker side: wait/notify handshake of worker_coro (audit D3), one unit per instantiation of the stop-callback lambda
+    unit('worker_stop_cb', 'wk_stop_cb', [RX['wk_stop_cb']], spec=SPEC_WK, enforce=None, harness='h_worker_stop_cb',
+         under_contract=['cocls::scheduler::worker_coro<false>(std::stop_token)::{lambda()#1}::operator()() const  [the worker\'s stop callback; thread mode, start(awaitable)]'],
+         replay=dict(src='c12_stop_lost_wakeup.cpp', mode='dtor', flags=['-pthread', '-g'], timeout=60)),
+    unit('worker_stop_cb_pool', 'wk_stop_cb', [RX['wk_stop_cb_pool']], spec=SPEC_WK, enforce=None, harness='h_worker_stop_cb',
+         under_contract=['cocls::scheduler::worker_coro<true>(std::stop_token)::{lambda()#1}::operator()() const  [the worker\'s stop callback; thread-pool mode]'],
+         replay=dict(src='c12_stop_lost_wakeup.cpp', mode='pool', flags=['-pthread', '-g'], timeout=60)),
+    # one resumption of the real lowered worker coroutine from an arbitrary state satisfying the suspension invariant (inductive step, not a bounded run):
+    # waiter side of the handshake, deadline of the wait, resolution of due sleepers outside _mx (seed report: completion callback re-enters the scheduler)
+    worker_unit('worker_step', 'false', replay=dict(src='c12_callback_reenters.cpp', mode='thread', flags=['-pthread', '-g'], timeout=60)),
+    worker_unit('worker_step_pool', 'true', defines=['WK_POOL 1'], replay=dict(src='c12_callback_reenters.cpp', mode='pool', flags=['-pthread', '-g'], timeout=60)),
+    # ---- start(awaitable) mode: start<future<int>&> as a forwarder (abstract callees record their invocations); with CV_CHECK_C03 (property C03 re-runs this
+    # unit) the permission instrumentation checks that scheduler::_elide_state - shared by all threads that run start() - is only touched under _mx,
+    # directly or through the stack_storage bound to it (audit A item 3).  drivers/c12_alloca_shim.h: the alloca builtin becomes an abstract callee.
+    unit('start_future', 'st_start', [r'^auto cocls::scheduler::start<cocls::future<int>&>\(cocls::future<int>&\)$', r'^cocls::stack_storage::alloc\(unsigned long\)$'],
+         names=dict(st_ss_alloc=r'^cocls::stack_storage::alloc\(unsigned long\)$'),
+         names_opt=dict(st_worker_ramp=r'^cocls::async<void> cocls::scheduler::worker_coro<false>\(std::stop_token\)$', st_cb_await=r'^void cocls::callback_await_alloc<cocls::stack_storage, cocls::future<int>&, cocls::scheduler::start<',
+                        st_run=r'^auto cocls::coro_queue::install_queue_and_call<cocls::scheduler::start<cocls::future<int>&>', st_ss_ctor=r'^std::stop_source::stop_source\(\)$', st_ss_dtor=r'^std::stop_source::~stop_source\(\)$',
+                        st_get_token=r'^std::stop_source::get_token\(\) const$', st_tok_dtor=r'^std::stop_token::~stop_token\(\)$', st_async_dtor=r'^cocls::async<void>::~async\(\)$',
+                        st_opt_ctor=r'^std::optional<int>::optional\(\)$', st_opt_deref=r'^std::optional<int>::operator\*\(\) &$',
+                        ),
+         boundary=[r'^cocls::async<void> cocls::scheduler::worker_coro<', r'cocls::callback_await_alloc<', r'cocls::coro_queue::install_queue_and_call<', r'^std::stop_source::', r'^std::stop_token::', r'^cocls::async<void>::',
+                   r'^std::optional<int>::'],
+         types=dict(STSTORAGE='cocls::stack_storage', STASYNC='cocls::async<void>', STFUT='cocls::future<int>', STOPSRC='std::stop_source', STOPTOK='std::stop_token', STOPT='std::optional<int>', EPTR='std::__exception_ptr::exception_ptr'),
+         ptypes=dict(STFN='^void cocls::callback_await_alloc<cocls::stack_storage, cocls::future<int>&, cocls::scheduler::start<#1', STRUN='^auto cocls::coro_queue::install_queue_and_call<cocls::scheduler::start<cocls::future<int>&>#0'),
+         perms={'cocls::scheduler._elide_state': 'CV_PERM_SCH_ELIDE', 'cocls::stack_storage._state': 'CV_PERM_SS_STATE'},
+         clang_flags=['-include', os.path.join(os.path.dirname(os.path.dirname(os.path.dirname(os.path.abspath(__file__)))), 'drivers', 'c12_alloca_shim.h')],
+         spec=SPEC_WK, enforce=None, harness='h_start_future',
+         under_contract=['cocls::scheduler::start<cocls::future<int>&>(cocls::future<int>&)  [start(awaitable) mode; forwarder + lock discipline of _elide_state under CV_CHECK_C03]'],
+         replay=dict(src='c03_scheduler_start_tsan.cpp', mode='tsan', kind='tsan', flags=['-fsanitize=thread', '-pthread', '-g'], timeout=120)),
 ] + [
     unit('drive_manual_' + sname, 'sch_drive', [RX['schedule'], RX['cancel_e'], RX['get_expired'], RX['remove_pred'], RX['item_move'], RX['item_dtor']],
          names=dict(HEAP, sch_drive=RX['schedule'], sch_schedule=RX['schedule'], sch_cancel_e=RX['cancel_e'], sch_get_expired=RX['get_expired'], sch_item_move=RX['item_move'],
@@ -92,17 +160,21 @@ UNITS = [
 ]
 META = dict(
     level='proof',
-    level_text='Every function of scheduler.h that touches the scheduled heap is verified against a contract taken from the property statement, for every size and content of the heap (no bound on the number of entries, time points, identifiers or tombstones), with the two loops (get_expired_lk, remove) under loop contracts: get_expired_lk/get_expired(now): a returned promise is live, comes from an entry with time point <= now, and no pending sleep that remains is earlier; a returned time is the earliest time point, belongs to a pending sleep, and nothing pending is due (max() when empty); every pending sleep is either still pending and unaltered or is the one returned; nothing is resolved or dropped. remove(id): a live result was taken from an entry carrying id and exactly that entry is consumed; an empty result means no pending sleep carries id and nothing changed; every vector access is in range; one critical section, lock released. schedule: one entry more, the new entry unaltered, the first entry still the earliest, the worker notified whenever the heap was empty or the new entry is strictly earlier than the first one, every old entry kept. cancel(id,e) = one remove(id) + resolution of exactly the returned promise with exactly e, true/false accordingly, the awaiting coroutine handed to the caller; cancel(id) forwards with an exception whose dynamic type is await_canceled_exception; sleep_until/sleep_for schedule the promise of the returned future exactly once for (tp | one clock reading + duration, id); ~scheduler stops and joins a started worker first and then destroys the vector once, which drops (= cancels, C01) every pending promise; compare_item/pop_item as leaves. The stop-callback lambda of interval() is checked with everything it calls translated (lock discipline of std::mutex, no exception, other sleeps untouched).',
-    level_note='"For every entry" is proved for one arbitrary-but-fixed tracked entry that the vector model follows through every permutation (quantifier-free). Trusted: the element-view model of std::vector<SchItem> and of std::push_heap/pop_heap/find_if (lib/model_vec_heap.c) - the heap algorithms are specified by their effect (permutation + "comp(moved/first, x) is false for every x", evaluated with the real translated compare_item) and are assumed to keep the std heap invariant that their own precondition demands; the abstract promise<void> (one owner word; resolution/drop recorded, future.h internals not translated); std::variant converting constructors; std::mutex via pthread primitives (sequential reading: every public operation is one critical section, cancel = one critical section + a resolution outside the lock); condition_variable::notify_all only counted. Each public operation is verified for one thread; interleavings reduce to sequences of critical sections (lock-based linearisability, argued not machine-checked). NOT covered: worker_coro (coroutine body: that it waits until exactly the time get_expired_lk returns and resolves what it returns is by reading), start()/start_in/thread-pool mode, the body of interval() other than its stop callback, wall-clock accuracy, std::stop_token internals, history-level composition (a sleep completes exactly once over a whole run: the per-operation contracts are the inductive steps, the induction over histories is not machine-checked). A reversed comparator is caught by compare_item and schedule only (the consumer units then prune instead of failing).',
-    technique='CBMC 6.11 code contracts (requires/ensures/assigns) and loop contracts enforced via goto-instrument --dfcc on the C translation of clang IR of scheduler.h; std containers/algorithms, promise<void>, variant, mutex, condition_variable as operational models with precondition obligations; forwarder units with recording stubs for cancel/sleep_until/sleep_for/destructor',
+    level_text='Every function of scheduler.h that touches the scheduled heap is verified against a contract taken from the property statement, for every size and content of the heap (no bound on the number of entries, time points, identifiers or tombstones), with the two loops (get_expired_lk, remove) under loop contracts: get_expired_lk/get_expired(now): a returned promise is live, comes from an entry with time point <= now, and no pending sleep that remains is earlier; a returned time is the earliest time point, belongs to a pending sleep, and nothing pending is due (max() when empty); every pending sleep is either still pending and unaltered or is the one returned; nothing is resolved or dropped. remove(id): a live result was taken from an entry carrying id and exactly that entry is consumed; an empty result means no pending sleep carries id and nothing changed; every vector access is in range; one critical section, lock released. schedule: one entry more, the new entry unaltered, the first entry still the earliest, the worker notified whenever the heap was empty or the new entry is strictly earlier than the first one, every old entry kept. cancel(id,e) = one remove(id) + resolution of exactly the returned promise with exactly e, true/false accordingly, the awaiting coroutine handed to the caller; cancel(id) forwards with an exception whose dynamic type is await_canceled_exception; sleep_until/sleep_for schedule the promise of the returned future exactly once for (tp | one clock reading + duration, id); ~scheduler stops and joins a started worker first and then destroys the vector once, which drops (= cancels, C01) every pending promise; compare_item/pop_item as leaves. The stop-callback lambda of interval() is checked with everything it calls translated (lock discipline of std::mutex, no exception, other sleeps untouched). WORKER SIDE (thread, thread-pool and start(awaitable) mode - the modes the quantifier names): the real lowered coroutine worker_coro<false> / worker_coro<true> is executed for ONE resumption - its first one, after the real ramp function created the frame, and one from its suspension point in an arbitrary state satisfying the suspension invariant (inductive step: every loop iteration, no bound) - with std::visit modelled as the dispatch to the real visitor lambdas: the stop flag is tested, found clear, and wait_until entered within one critical section of _mx (waiter half of the wait/notify handshake); the deadline of the wait is exactly the earliest time point get_expired_lk() reported in that critical section from a clock reading taken after the last wake-up; a due promise is resolved exactly once, not dropped, and OUTSIDE _mx (user completion callbacks never run under the scheduler mutex); the worker never suspends, completes or reaches ~stop_callback with _mx held; it leaves its loop only on a stop request and then completes. The worker\'s stop-callback lambda (both instantiations) must pass through _mx between the setting of the stop flag and notify_all() (notifier half). start<future<int>&> is a forwarder: one worker for this scheduler listening to the stop source that the completion callback of the awaitable stops, callback attached before the worker runs, value returned / exception rethrown, nothing run with _mx held; under CV_CHECK_C03 (property C03) every access to scheduler::_elide_state - direct or through the stack_storage bound to it (real stack_storage code, permission instrumentation) - needs _mx. ~scheduler requests the stop before it joins, on the stop source / future of the same GlobState, neither with _mx held. ON THE UNCHANGED TREE three of these obligations FAIL (genuine defects, native replays registered): worker_stop_cb / worker_stop_cb_pool (stop callback notifies without _mx: lost stop request, ~scheduler and start(awaitable) hang; replay/c12_stop_lost_wakeup.cpp, specs/C12/fix_stop_notify.diff), worker_step / worker_step_pool (due promises resolved under _mx: a completion callback that calls cancel/schedule self-deadlocks the scheduling thread; replay/c12_callback_reenters.cpp, specs/C12/fix_resolve_unlocked.diff) and - under C03 - start_future (data race on _elide_state; replay/c03_scheduler_start_tsan.cpp, specs/C12/fix_elide_state.diff).',
+    level_note='"For every entry" is proved for one arbitrary-but-fixed tracked entry that the vector model follows through every permutation (quantifier-free). Trusted: the element-view model of std::vector<SchItem> and of std::push_heap/pop_heap/find_if (lib/model_vec_heap.c) - the heap algorithms are specified by their effect (permutation + "comp(moved/first, x) is false for every x", evaluated with the real translated compare_item) and are assumed to keep the std heap invariant that their own precondition demands; the abstract promise<void> (one owner word; resolution/drop recorded, future.h internals not translated); std::variant converting constructors; std::mutex via pthread primitives (sequential reading: every public operation is one critical section, cancel = one critical section + a resolution outside the lock); condition_variable::notify_all only counted. Each public operation is verified for one thread; interleavings reduce to sequences of critical sections (lock-based linearisability, argued not machine-checked). Worker side: each resumption of worker_coro is verified for one thread against abstract callees (stop_token / stop_callback, system_clock::now as a ghost clock, get_expired_lk by its contract, condition_variable::wait_until as release + re-acquire of _mx with arbitrary interference, coro_queue / pause / thread_pool::co_awaiter / async_promise as recorders, std::visit as index dispatch); that the two machine-checked halves of the wait/notify handshake exclude a lost wake-up - and hence that the worker terminates after request_stop() and future::wait() in ~scheduler / the run in start() returns - is the standard monitor argument, argued not machine-checked; thread-pool mode assumes the pool is not stopped while the scheduler runs in it. NOT covered: start_in(thread) / start_in(pool) (that they start worker_coro with the token of _glob_state->_stp and bind _glob_state->_fut is by reading), start<Awt> for awaitables other than future<int>& and the completion-callback lambda of start() (that it calls request_stop() on every path is by reading), the lifetime of the alloca frame of that callback when the awaitable is resolved by another thread, the body of interval() other than its stop callback (it yields an uninitialised counter: outside the property), wall-clock accuracy, std::stop_token internals, history-level composition (a sleep completes exactly once over a whole run: the per-operation contracts are the inductive steps, the induction over histories is not machine-checked). A reversed comparator is caught by compare_item and schedule only (the consumer units then prune instead of failing).',
+    technique='CBMC 6.11 code contracts (requires/ensures/assigns) and loop contracts enforced via goto-instrument --dfcc on the C translation of clang IR of scheduler.h; std containers/algorithms, promise<void>, variant, mutex, condition_variable as operational models with precondition obligations; forwarder units with recording stubs for cancel/sleep_until/sleep_for/destructor/start(awaitable); single-resumption (inductive-step) execution of the lowered worker coroutine; permission instrumentation for _elide_state',
     trusted_base=['assumed contract: std::vector<scheduler::SchItem> + std::push_heap/pop_heap/find_if, element view with a tracked element (lib/model_vec_heap.c)',
                   'assumed contract: cocls::promise<void> = one owner word; move/bool/destructor/operator()(exception_ptr) record completions in ghost state (lib/model_promise.c)',
                   'assumed contract: std::variant<time_point, promise<void>> converting constructors (lib/model_variant_expired.c)',
                   'primitive: std::mutex = pthread_mutex_lock/unlock with "not locked again by its holder" obligation (lib/model_mutex.c); condition_variable::notify_all counted (specs/C12/sch_spec.h)',
                   'libstdc++ make_exception_ptr primitives (__cxa_init_primary_exception, exception_ptr(void*)) as two-line stubs (specs/C12/sch_spec.h)',
-                  'abstract callees in forwarder units: optional<GlobState>, stop_source::request_stop, future<void>::wait, system_clock::now, duration_cast<ns>(ms), suspend_point<void> destructor'],
+                  'abstract callees in forwarder units: optional<GlobState>, stop_source::request_stop, future<void>::wait, system_clock::now, duration_cast<ns>(ms), suspend_point<void> destructor',
+                  'worker units (specs/C12/wk_spec.h): std::stop_token::stop_requested (monotone flag another thread may set at any time), std::stop_callback constructor (runs the real callback when the stop is already requested) / destructor, ghost clock, get_expired_lk by contract, condition_variable::wait_until = release + re-acquire of _mx, std::visit = dispatch on the variant index to the real visitor instances, pause / thread_pool::co_awaiter / thread_pool::resume / any_enqueued / coro_queue::can_block / async_promise<void> members as recorders',
+                  'unit start_future: the alloca builtin replaced by an external function in this one TU (drivers/c12_alloca_shim.h), worker_coro ramp / callback_await_alloc (creates the callback frame through the real stack_storage::alloc) / install_queue_and_call (models the completion) / stop_source / optional<int> as recorders; ir2c permission instrumentation on scheduler::_elide_state and stack_storage::_state (first access of a storage object = its constructor binding the reference)'],
     assumptions=['fewer than 2^62 scheduled entries (size counter never wraps)',
                  'the scheduled vector is manipulated only through the modelled operations (operator[], empty, begin/end as algorithm arguments, push_back+push_heap, pop_heap+pop_back, find_if); time points of stored entries are never written (true of scheduler.h by inspection of the translated units: every access goes through the model)',
                  'each public operation runs as one critical section of _mx; results for concurrent use follow by lock-based linearisability (not machine-checked)',
-                 'promise<void> is a linear resource: a live owner word is held by exactly one promise object (property C01)'],
+                 'promise<void> is a linear resource: a live owner word is held by exactly one promise object (property C01)',
+                 'termination of the worker after request_stop() follows from the two machine-checked halves of the wait/notify handshake by the standard monitor argument (not machine-checked); condition_variable / stop_token behave as the C++ standard says',
+                 'thread-pool mode: the pool is not stopped while the scheduler runs in it (thread_pool::co_awaiter::await_resume does not throw)'],
     explanation='see level_text / level_note')
